@@ -498,7 +498,7 @@ def _real_keyboard_case(name, writes, session_name, close_after=False):
             os.unlink(p)
     argv = [sys.executable, "-W", "ignore", os.path.join(code, "pcfg_guesser.py"), "-r", "Default", "-s", session_name]
     proc = subprocess.Popen(argv, stdin=subprocess.PIPE, stdout=subprocess.PIPE, stderr=subprocess.DEVNULL,
-                            env=dict(os.environ, PYTHONUTF8="1"))
+                            env=scratch.child_env(PYTHONUTF8="1"))
     chunks = []
 
     def pump():
@@ -544,7 +544,7 @@ def _real_keyboard_case(name, writes, session_name, close_after=False):
             return out
         if lines:
             ref = subprocess.run(argv[:-2] + ["-s", session_name + "_ref", "--limit", str(len(lines))], stdin=subprocess.DEVNULL,
-                                 stdout=subprocess.PIPE, stderr=subprocess.DEVNULL, env=dict(os.environ, PYTHONUTF8="1"), timeout=600)
+                                 stdout=subprocess.PIPE, stderr=subprocess.DEVNULL, env=scratch.child_env(PYTHONUTF8="1"), timeout=600)
             if ref.stdout != text:
                 rl = ref.stdout.split(b"\n")[:-1]
                 k = next((i for i, (a, b) in enumerate(zip(lines, rl)) if a != b), min(len(lines), len(rl)))
